@@ -173,7 +173,7 @@ def m_clone(sim, st, c):
     return v
 
 
-@pattern(r"^<std::(option::Option<T>|result::Result<T, E>|rc::Rc<T, A>|sync::Arc<T, A>) as std::clone::Clone>::clone$")
+@pattern(r"^<std::(option::Option<T>|result::Result<T, E>) as std::clone::Clone>::clone$")
 def m_clone_std(sim, st, c):
     return m_clone(sim, st, c)
 
@@ -740,9 +740,38 @@ def m_rc_new(sim, st, c):
 @pattern(r"^<std::(rc::Rc|sync::Arc)<T, A> as std::ops::Deref>::deref$")
 def m_rc_deref(sim, st, c):
     g = deref_arg(sim, st, c["args"][0])
-    if isinstance(g, Opaque) and g.kind == "Rc":
-        return Ref(g.data[0])
-    raise S.Unsupported("Rc deref of %r" % (g,))
+    return Ref(sim.deref_value(st, g))
+
+
+@pattern(r"^<std::(rc::Rc|sync::Arc)<T, A> as std::clone::Clone>::clone$")
+def m_rc_clone(sim, st, c):
+    v = deref_arg(sim, st, c["args"][0])
+    st.effects.append(("rc_clone", repr(v)))
+    return v
+
+
+@pattern(r"^std::sync::(RwLock|Mutex)::<T>::(read|write|lock)$")
+def m_lock(sim, st, c):
+    p = sim.deref_value(st, c["args"][0])
+    label = sim.obj_label(st, p)
+    kind = c["fn"]["name"]
+    st.effects.append(("lock", kind, label))
+    st.notes.add("assume-locks-not-poisoned")
+    g = Opaque("LockGuard", (kind, p))
+    return sim.mk_enum(c["ret_ty"], "Ok", [g])
+
+
+@pattern(r"^<std::sync::(MutexGuard|RwLockReadGuard|RwLockWriteGuard)<'_, T> as std::ops::Deref(Mut)?>::deref(_mut)?$")
+def m_lock_deref(sim, st, c):
+    g = deref_arg(sim, st, c["args"][0])
+    if isinstance(g, Opaque) and g.kind == "LockGuard":
+        return Ref(g.data[1].ext(("locked",)), g.data[0] != "read")
+    raise S.Unsupported("deref of %r" % (g,))
+
+
+@pattern(r"^std::sync::(RwLock|Mutex)::<T>::new$")
+def m_lock_new(sim, st, c):
+    return Opaque("Lock", (c["args"][0],), c["ret_ty"])
 
 
 # --------------------------------------------------------------------------------------------- crate-local wrappers (Reference)
@@ -1173,3 +1202,9 @@ def m_list_back(sim, st, c):
     if not l.data[0]:
         return sim.mk_enum(c["ret_ty"], "None")
     return sim.mk_enum(c["ret_ty"], "Some", [Ref(p.ext(("i", len(l.data[0]) - 1)))])
+
+
+@pattern(r"^std::(rc::Rc|sync::Arc)::<T, A>::as_ptr$")
+def m_rc_as_ptr(sim, st, c):
+    g = deref_arg(sim, st, c["args"][0])
+    return Ref(sim.deref_value(st, g), False, raw=True)
